@@ -440,7 +440,13 @@ def leg_reroute(run):
     routes = []
     for name in targets:
         t = shape(make_target(name), sorted(targets).index(name) % 4)
-        routes.append(('/as_endpoint/%s/<p*>' % name, RerouteWSGI(t)))
+        try:
+            routes.append(('/as_endpoint/%s/<p*>' % name, RerouteWSGI(t)))
+        except Exception as ex:  # noqa  (any WSGI callable is a legitimate target)
+            run.violation('reroute-target-rejected:%s' % type(ex).__name__, 'RerouteWSGI(%r) raised %r' % (t, ex),
+                          {'leg': 'L2', 'target': name})
+            t = make_target(name)
+            routes.append(('/as_endpoint/%s/<p*>' % name, RerouteWSGI(t)))
 
         def raiser(t=t):
             raise RerouteWSGI(t)
